@@ -98,6 +98,10 @@ def _spell_names(names):
         names = [StrMember(x) for x in names]
     if len(names) == 1 and k in (1, 3):
         return names[0]
+    if names and (_SPELL[0] // 4) % 5 == 3:
+        # every fifth round of spellings: the first name listed twice in a row ([a, a, b]): a batch is one rule per listed
+        # module, naming a module twice states nothing new
+        names = [names[0]] + list(names)
     return tuple(names) if k == 2 else list(names)
 
 
